@@ -108,7 +108,8 @@ func (g *Gen) assignGhost(name string, v Val) {
 
 // ghostDefaults: on paths that executed no re-assignment the ghost has its entry value (asserted at returns)
 func (g *Gen) ghostDefaults() {
-	for _, gh := range g.fnGhosts {
+	for _, k := range sortedKeys(g.fnGhosts) {
+		gh := g.fnGhosts[k]
 		none := tBool(true)
 		if len(gh.assigned) > 0 {
 			none = not(or(gh.assigned...))
@@ -191,6 +192,9 @@ func (g *Gen) localByName(st *State, name string, pos token.Pos) (Val, bool) {
 			return v, true
 		}
 		return Val{}, false
+	}
+	if ia, ok := g.cellAddr[best]; ok {
+		return Val{T: best.Type().(*types.Pointer).Elem(), C: []Term{tInt(0)}, IA: ia}, true
 	}
 	if bestSV.A != nil {
 		if bestSV.A.K == aElem && bestSV.A.Idx.Sort == "ARRAY" {
@@ -681,6 +685,10 @@ func (g *Gen) specField(x Val, name string, cx *Ctx) Val {
 	// auto-deref pointer
 	if pt, ok := t.Underlying().(*types.Pointer); ok {
 		a := g.refAddr(x.C[0], pt.Elem())
+		if x.IA != nil {
+			cp := *x.IA
+			a = &cp
+		}
 		stt, ok := pt.Elem().Underlying().(*types.Struct)
 		if !ok {
 			oos("field %s of pointer to non-struct", name)
@@ -688,7 +696,7 @@ func (g *Gen) specField(x Val, name string, cx *Ctx) Val {
 		for i := 0; i < stt.NumFields(); i++ {
 			if stt.Field(i).Name() == name {
 				fa := *a
-				fa.Path = "." + name
+				fa.Path = a.Path + "." + name
 				fa.T = stt.Field(i).Type()
 				return g.loadAddrPure(cx.st, &fa)
 			}
